@@ -368,3 +368,28 @@ PROPS["C09"]["mir"].append(ob("read_headers_file_order", "ob_tree", "read_header
 PROPS["C02"]["mir"].append(ob("read_headers_file_order_c02", "ob_tree", "read_headers_file_order"))
 PROPS["C14"]["mir"].append(ob("index_load_cancel_safe", "ob_index", "index_load_cancel_safe"))
 PROPS["C04"]["mir"].append(ob("index_load_cancel_safe_c04", "ob_index", "index_load_cancel_safe"))
+
+
+# --- an obligation belongs to every property whose statement depends on the kernel it decides (lesson of seeding round 3)
+def _share(src_pid, src_name, *dst_pids):
+    o = [x for x in PROPS[src_pid]["mir"] if x["name"] == src_name][0]
+    for d in dst_pids:
+        n = dict(o)
+        n["name"] = "%s_%s" % (re.sub(r"_c\d\d$", "", src_name), d.lower())
+        if not any(x["module"] == n["module"] and x["func"] == n["func"] and x.get("kwargs") == n.get("kwargs") for x in PROPS[d]["mir"]):
+            PROPS[d]["mir"].append(n)
+
+
+import re
+for _n in ("leaf_search", "go_right_continues", "find_leaf_descent", "go_right_file_run", "read_headers_file_order"):
+    _share("C09", _n, "C03", "C04")        # an index on disk answers like the index in memory
+_share("C07", "append_all_only_appends", "C05")
+_share("C07", "append_writable_only_appends", "C05")
+_share("C06", "read_exact_passes_through", "C05")
+_share("C03", "load_index_fallback", "C06", "C11")
+_share("C16", "recovery_copies_prefix", "C07")
+_share("C13", "send_msg_delivers", "C12")
+_share("C03", "regenerate_pushes_all", "C15")
+_share("C03", "records_fold_step", "C09")
+_share("C03", "records_reverse", "C09")
+_share("C15", "load_in_memory_count", "C09")
